@@ -34,6 +34,9 @@ pub struct SqlReplay {
     /// C12: the same history is also run under each of these configurations
     #[serde(default)]
     pub alt_cfgs: Vec<Cfg>,
+    /// E5b (C20): run the history through the wire protocol and the server's request loop
+    #[serde(default)]
+    pub served: Option<crate::served::ServedCfg>,
     #[serde(default)]
     pub violation: Option<Violation>,
     #[serde(default)]
@@ -61,7 +64,14 @@ pub fn gen_sql_case(prop: &str, verif_seed: u64, idx: u64) -> SqlReplay {
         alt_cfgs.push(Cfg { page: *r2.pick(&[4096usize, 4096, 8192]), cache: r2.range(24, 36) as usize, pool: *r2.pick(&[1usize, 2]), min_keys: r2.range(3, 5) as usize, siblings: r2.range(1, 3) as usize });
         alt_cfgs.push(Cfg { page: *r2.pick(&[8192usize, 16384, 32768, 65536]), cache: r2.range(40, 400) as usize, pool: *r2.pick(&[1usize, 4, 8]), min_keys: r2.range(3, 6) as usize, siblings: r2.range(1, 3) as usize });
     }
-    SqlReplay { property: prop.into(), engine: engine.into(), seed, cfg, allow_oom: false, guards, events, alt_cfgs, violation: None, trace: vec![] }
+    let mut served = None;
+    let mut engine = engine;
+    if prop == "C20" {
+        let mut r3 = Rng::new(seed ^ 0xC20);
+        served = Some(crate::served::ServedCfg { pipe_seed: r3.next(), eintr: *r3.pick(&[0u64, 0, 10, 30]), frag: r3.below(3), ping_pct: *r3.pick(&[0u64, 10, 40]), garbage_pct: *r3.pick(&[0u64, 50, 100]) });
+        engine = "E1-sqlsim/E5b-served";
+    }
+    SqlReplay { property: prop.into(), engine: engine.into(), seed, cfg, allow_oom: false, guards, events, alt_cfgs, served, violation: None, trace: vec![] }
 }
 
 /// Harness self-check: a generated history must not trip the guards it was generated under.
@@ -134,7 +144,11 @@ pub fn run_sql_case_one(case: &SqlReplay, idx: u64) -> RunResult {
 pub fn run_sql_case_in(case: &SqlReplay, idx: u64, dir: &std::path::Path) -> RunResult {
     let dir = dir.to_path_buf();
     let mut res = RunResult { idx, seed: case.seed, violation: None, counters: BTreeMap::new(), fingerprint: 0, steps: case.events.len() as u64, replay: None, hazards: vec![] };
-    match Sim::new(&dir, case.cfg) {
+    let sim = match case.served {
+        Some(sc) => Sim::new_served(&dir, case.cfg, sc),
+        None => Sim::new(&dir, case.cfg),
+    };
+    match sim {
         Err(e) => {
             res.violation = Some(Violation { oracle: "O-open".into(), event: 0, detail: format!("Database::create failed: {e}") });
         }
